@@ -8,7 +8,26 @@
 #include <fcppt/endianness/convert.hpp>
 #include <fcppt/endianness/reverse_mem.hpp>
 #include <fcppt/endianness/swap.hpp>
+#include <fcppt/enum/from_string.hpp>
+#include <fcppt/enum/input.hpp>
+#include <fcppt/enum/names.hpp>
+#include <fcppt/enum/output.hpp>
+#include <fcppt/enum/to_string.hpp>
+#include <fcppt/enum/to_string_impl_fwd.hpp>
+#include <fcppt/extract_from_string.hpp>
+#include <fcppt/extract_from_string_locale.hpp>
+#include <fcppt/insert_extract_locale.hpp>
+#include <fcppt/no_init.hpp>
+#include <fcppt/output_to_std_string.hpp>
+#include <fcppt/output_to_std_wstring.hpp>
+#include <fcppt/output_to_string.hpp>
 #include <fcppt/io/read.hpp>
+#include <fcppt/math/dim/input.hpp>
+#include <fcppt/math/dim/output.hpp>
+#include <fcppt/math/dim/static.hpp>
+#include <fcppt/math/vector/input.hpp>
+#include <fcppt/math/vector/output.hpp>
+#include <fcppt/math/vector/static.hpp>
 #include <fcppt/io/write.hpp>
 #include <fcppt/optional/object_impl.hpp>
 
@@ -23,6 +42,67 @@
 #include <string>
 #include <type_traits>
 #include <vector>
+
+namespace c15
+{
+enum class e1 { test1, test2, test3, fcppt_maximum = test3 };
+enum class e2 { foo, bar, baz, fo, foobar, fcppt_maximum = foobar };
+enum class e3 : unsigned char { a, b, a2, fcppt_maximum = a2 }; // two enumerators share a name
+enum class e4 { only, fcppt_maximum = only };
+}
+
+namespace fcppt::enum_
+{
+template <>
+struct to_string_impl<c15::e1>
+{
+  static std::string_view get(c15::e1 const v)
+  {
+    switch (v)
+    {
+    case c15::e1::test1: return "test1";
+    case c15::e1::test2: return "test2";
+    case c15::e1::test3: return "test3";
+    }
+    return "";
+  }
+};
+template <>
+struct to_string_impl<c15::e2>
+{
+  static std::string_view get(c15::e2 const v)
+  {
+    switch (v)
+    {
+    case c15::e2::foo: return "foo";
+    case c15::e2::bar: return "bar";
+    case c15::e2::baz: return "baz";
+    case c15::e2::fo: return "fo";
+    case c15::e2::foobar: return "foobar";
+    }
+    return "";
+  }
+};
+template <>
+struct to_string_impl<c15::e3>
+{
+  static std::string_view get(c15::e3 const v)
+  {
+    switch (v)
+    {
+    case c15::e3::a: return "a";
+    case c15::e3::b: return "b";
+    case c15::e3::a2: return "a";
+    }
+    return "";
+  }
+};
+template <>
+struct to_string_impl<c15::e4>
+{
+  static std::string_view get(c15::e4) { return "only"; }
+};
+}
 
 namespace
 {
@@ -265,11 +345,275 @@ std::string revmem(std::string const &bytes)
   return hex_of(std::string(reinterpret_cast<char const *>(buf.get()), bytes.size()));
 }
 
+// ------------------------------------------------------------------ textual part
+std::string b01(bool const b) { return b ? "1" : "0"; }
+
+std::wstring widen_bytes(std::string const &s)
+{
+  std::wstring r;
+  for (unsigned char c : s)
+    r += static_cast<wchar_t>(c);
+  return r;
+}
+
+// every code must be a byte, otherwise it can never equal what the model prints
+std::string narrow_codes(std::wstring const &s)
+{
+  std::string r;
+  for (wchar_t c : s)
+  {
+    if (c < 0 || c > 255)
+      return "\xff\xff\xffwide";
+    r += static_cast<char>(c);
+  }
+  return r;
+}
+
+template <typename D>
+struct text
+{
+  static std::string opt(fcppt::optional::object<D> const &o)
+  {
+    return o.has_value() ? "some " + show_int<D>(o.get_unsafe()) : std::string{"none"};
+  }
+  static std::string out(bool const wide, D const v)
+  {
+    if constexpr (sizeof(D) > 1)
+      if (wide)
+        return narrow_codes(fcppt::output_to_std_wstring(v));
+    // both spellings must agree
+    std::string const a{fcppt::output_to_std_string(v)};
+    std::string const b{fcppt::output_to_string<std::string>(v)};
+    return a == b ? a : "\xff\xff\xffdiffer";
+  }
+  static fcppt::optional::object<D> in(bool const wide, std::string const &s)
+  {
+    if constexpr (sizeof(D) > 1)
+      if (wide)
+        return fcppt::extract_from_string<D>(widen_bytes(s));
+    fcppt::optional::object<D> const a{fcppt::extract_from_string<D>(s)};
+    fcppt::optional::object<D> const b{fcppt::extract_from_string_locale<D>(s, std::locale::classic())};
+    if (a.has_value() != b.has_value() || (a.has_value() && a.get_unsafe() != b.get_unsafe()))
+      throw std::logic_error{"extract_from_string and extract_from_string_locale(classic) differ"};
+    return a;
+  }
+  static std::string rtd(bool const wide, D const v)
+  {
+    std::string const s{out(wide, v)};
+    return "s=" + hex_of(s) + " r=" + opt(in(wide, s));
+  }
+  static std::string handle(std::vector<std::string> const &t)
+  {
+    if (t[0] == "ots" && t.size() == 3)
+      return hex_of(out(false, parse_int<D>(t[2])));
+    if (t.size() < 4 || (t[1] != "N" && t[1] != "W"))
+      throw bad_op{};
+    bool const wide = t[1] == "W";
+    if constexpr (sizeof(D) == 1)
+      if (wide)
+        throw bad_op{}; // character types only through narrow strings
+    if (t[0] == "efs" && t.size() == 4)
+      return opt(in(wide, parse_hex(t[3])));
+    if (t[0] == "rtd" && t.size() == 4)
+      return rtd(wide, parse_int<D>(t[3]));
+    if (t[0] == "rtds" && t.size() == 5)
+    {
+      D const lo{parse_int<D>(t[3])};
+      unsigned long long const n{parse_int<unsigned long long>(t[4])};
+      if (n == 0 || n > (1ULL << 20))
+        throw bad_op{};
+      std::uint64_t h = vh::fnv_init;
+      D v{lo};
+      for (unsigned long long k = 0; k < n; ++k)
+      {
+        h = vh::fnv(h, rtd(wide, v));
+        if (k + 1 < n)
+        {
+          if (v == std::numeric_limits<D>::max())
+            throw bad_op{};
+          ++v;
+        }
+      }
+      return "D " + vh::hex64(h);
+    }
+    throw bad_op{};
+  }
+};
+
+std::string text_by_type(std::vector<std::string> const &t)
+{
+  std::string const &ty = t[0] == "ots" ? t.at(1) : t.at(2);
+  if (ty == "c8") return text<char>::handle(t);
+  if (ty == "u8") return text<std::uint8_t>::handle(t);
+  if (ty == "i8") return text<std::int8_t>::handle(t);
+  if (ty == "u16") return text<std::uint16_t>::handle(t);
+  if (ty == "i16") return text<std::int16_t>::handle(t);
+  if (ty == "u32") return text<std::uint32_t>::handle(t);
+  if (ty == "i32") return text<std::int32_t>::handle(t);
+  if (ty == "u64") return text<std::uint64_t>::handle(t);
+  if (ty == "i64") return text<std::int64_t>::handle(t);
+  throw bad_op{};
+}
+
+template <typename E>
+struct en
+{
+  static constexpr unsigned size = static_cast<unsigned>(E::fcppt_maximum) + 1U;
+  static std::string opt(fcppt::optional::object<E> const &o)
+  {
+    return o.has_value() ? std::to_string(static_cast<unsigned>(o.get_unsafe())) : std::string{"none"};
+  }
+  static std::string line(unsigned const i)
+  {
+    if (i >= size)
+      throw bad_op{};
+    E const e{static_cast<E>(i)};
+    std::string const ts{fcppt::enum_::to_string(e)};
+    // names() must be the table of to_string
+    if (std::string{fcppt::enum_::names<E>()[e]} != ts)
+      throw std::logic_error{"names"};
+    std::ostringstream os{};
+    fcppt::enum_::output(os, e);
+    std::string const out{os.str()};
+    std::istringstream is{out};
+    E r{static_cast<E>(size - 1U - i)};
+    fcppt::enum_::input(is, r);
+    bool const fail = is.fail();
+    return "ts=" + hex_of(ts) + " fs=" + opt(fcppt::enum_::from_string<E>(ts)) + " out=" + hex_of(out) +
+           " in=" + (fail ? std::string{"none"} : std::to_string(static_cast<unsigned>(r))) + " eof=" + b01(is.eof()) + " fail=" + b01(fail);
+  }
+  static std::string ein(std::string const &text_)
+  {
+    std::istringstream is{text_};
+    std::string r;
+    for (int k = 0; k < 8; ++k)
+    {
+      E e{E::fcppt_maximum};
+      fcppt::enum_::input(is, e);
+      if (is.fail())
+        break;
+      if (!r.empty())
+        r += ',';
+      r += std::to_string(static_cast<unsigned>(e));
+    }
+    bool const eof = is.eof();
+    bool const fail = is.fail();
+    is.clear();
+    return (r.empty() ? std::string{"-"} : r) + " eof=" + b01(eof) + " fail=" + b01(fail) + " rest=" + std::to_string(is.rdbuf()->in_avail());
+  }
+  static std::string handle(std::vector<std::string> const &t)
+  {
+    if (t[0] == "enum" && t.size() == 3)
+      return line(static_cast<unsigned>(parse_int<unsigned>(t[2])));
+    if (t[0] == "efrom" && t.size() == 3)
+    {
+      // exact-size heap copy behind the string_view
+      std::string const s{parse_hex(t[2])};
+      std::unique_ptr<char[]> const buf{new char[s.size()]};
+      if (!s.empty())
+        std::memcpy(buf.get(), s.data(), s.size());
+      return opt(fcppt::enum_::from_string<E>(std::string_view{buf.get(), s.size()}));
+    }
+    if (t[0] == "ein" && t.size() == 3)
+      return ein(parse_hex(t[2]));
+    throw bad_op{};
+  }
+};
+
+std::string enum_by_id(std::vector<std::string> const &t)
+{
+  if (t.size() < 3)
+    throw bad_op{};
+  if (t[1] == "1") return en<c15::e1>::handle(t);
+  if (t[1] == "2") return en<c15::e2>::handle(t);
+  if (t[1] == "3") return en<c15::e3>::handle(t);
+  if (t[1] == "4") return en<c15::e4>::handle(t);
+  throw bad_op{};
+}
+
+template <typename V, typename T, unsigned N>
+struct vecio
+{
+  static std::string show(std::istringstream &is, V const &v)
+  {
+    bool const eof = is.eof();
+    bool const fail = is.fail();
+    std::string r;
+    if (fail)
+      r = "fail";
+    else
+      for (unsigned i = 0; i < N; ++i)
+        r += (i ? "," : "") + show_int<T>(v.get_unsafe(i));
+    is.clear();
+    return r + " eof=" + b01(eof) + " fail=" + b01(fail) + " rest=" + std::to_string(is.rdbuf()->in_avail());
+  }
+  static std::string vin(std::string const &text_)
+  {
+    std::istringstream is{text_};
+    V v{fcppt::no_init{}};
+    for (unsigned i = 0; i < N; ++i)
+      v.get_unsafe(i) = static_cast<T>(77);
+    is >> v;
+    return show(is, v);
+  }
+  static std::string vec(std::string const &list)
+  {
+    std::vector<long long> const xs{vh::int_list(list)};
+    if (xs.size() != N)
+      throw bad_op{};
+    V v{fcppt::no_init{}};
+    for (unsigned i = 0; i < N; ++i)
+    {
+      if (xs[i] < static_cast<long long>(std::numeric_limits<T>::min()) || xs[i] > static_cast<long long>(std::numeric_limits<T>::max()))
+        throw bad_op{};
+      v.get_unsafe(i) = static_cast<T>(xs[i]);
+    }
+    std::ostringstream os{};
+    os << v;
+    std::string const out{os.str()};
+    return "out=" + hex_of(out) + " in=" + vin(out);
+  }
+  static std::string handle(std::vector<std::string> const &t)
+  {
+    if (t[0] == "vec")
+      return vec(t[3]);
+    return vin(parse_hex(t[3]));
+  }
+};
+
+template <unsigned N>
+std::string vec_by_type(std::vector<std::string> const &t)
+{
+  std::string const &ty = t[1];
+  if (ty == "i32") return vecio<fcppt::math::vector::static_<int, N>, int, N>::handle(t);
+  if (ty == "i64") return vecio<fcppt::math::vector::static_<long, N>, long, N>::handle(t);
+  if (ty == "u16") return vecio<fcppt::math::dim::static_<unsigned short, N>, unsigned short, N>::handle(t);
+  if (ty == "u32") return vecio<fcppt::math::dim::static_<unsigned, N>, unsigned, N>::handle(t);
+  throw bad_op{};
+}
+
+std::string vec_by_size(std::vector<std::string> const &t)
+{
+  if (t.size() != 4)
+    throw bad_op{};
+  if (t[2] == "1") return vec_by_type<1>(t);
+  if (t[2] == "2") return vec_by_type<2>(t);
+  if (t[2] == "3") return vec_by_type<3>(t);
+  if (t[2] == "4") return vec_by_type<4>(t);
+  throw bad_op{};
+}
+
 std::string dispatch(std::vector<std::string> const &t)
 {
   if (t.empty())
     throw bad_op{};
   std::string const &op = t[0];
+  if (op == "ots" || op == "efs" || op == "rtd" || op == "rtds")
+    return text_by_type(t);
+  if (op == "enum" || op == "efrom" || op == "ein")
+    return enum_by_id(t);
+  if (op == "vec" || op == "vin")
+    return vec_by_size(t);
   if (op == "native" && t.size() == 1)
     return std::endian::native == std::endian::little ? "little" : std::endian::native == std::endian::big ? "big" : "mixed";
   if (op == "bin" || op == "bins" || op == "seq" || op == "rd")
@@ -292,6 +636,10 @@ std::string handle(std::vector<std::string> const &t)
   catch (std::bad_alloc const &)
   {
     return "exc:bad_alloc";
+  }
+  catch (std::logic_error const &)
+  {
+    return "exc:logic_error";
   }
   catch (std::runtime_error const &)
   {
